@@ -408,6 +408,45 @@ impl Prop for C01 {
                 out.push(mk(kind, ch.to_vec()));
             }
         }
+        // (m) MSS, window and window-scale values at the top of their ranges, paired: SYN and SYN+ACK over IPv4 (with
+        // and without IP options) and IPv6, MSS 65495..65535 under every larger window, scale 0/14/15/255
+        {
+            let c6 = Endpoint::v6(0x77, 50000);
+            let s6 = Endpoint::v6(0x78, 443);
+            for (cl, sv) in [(c, s), (c6, s6)] {
+                for target in [Kind::Tcp, Kind::Unified] {
+                    let mut frames = vec![];
+                    for mss in (65495u32..=65535).chain([0, 1, 536, 1460, 32768, 65280]) {
+                        let mss = mss as u16;
+                        let mut wins: Vec<u16> = vec![mss, mss.wrapping_add(1), 65535, 65534, mss.wrapping_mul(2), 0];
+                        if tier == Tier::Thorough {
+                            wins.extend((mss..=65535).step_by(3));
+                        }
+                        for (wi, win) in wins.iter().enumerate() {
+                            let mut seg = pkt::Seg::new(cl, sv);
+                            seg.flags = if wi % 2 == 0 { pkt::SYN } else { pkt::SYN | pkt::ACK };
+                            seg.seq = 1;
+                            seg.window = *win;
+                            let mut o = pkt::opt::mss(mss);
+                            o.extend(pkt::opt::nop());
+                            o.extend(pkt::opt::ws(*[0u8, 14, 15, 255, 7].get(wi % 5).unwrap_or(&0)));
+                            if wi % 3 == 0 {
+                                o.extend(pkt::opt::sackok());
+                                o.extend(pkt::opt::ts(1, 0));
+                            }
+                            seg.tcp_opts = o;
+                            if wi % 4 == 1 && cl.is_v4() {
+                                seg.ip_opts = vec![1u8; 4 * (1 + wi % 10)];
+                            }
+                            frames.push(pkt::frame(&seg, Framing::Ethernet));
+                        }
+                    }
+                    for ch in frames.chunks(300) {
+                        out.push(mk(target, ch.to_vec()));
+                    }
+                }
+            }
+        }
         // (n) every degenerate TLS record (any content type and version, bodies of 0..6 bytes) alone through the
         // ClientHello reader and, as a flow's only data, through the TLS analyzer - each four times in a row, so that
         // one copy meets each of the run-index-dependent configurations (logging is on for one run in four)
